@@ -1,0 +1,26 @@
+use super::Archetypes;
+use crate::{
+    registry::Registry,
+    verif::ArchetypeDump,
+};
+use alloc::vec::Vec;
+
+impl<R> Archetypes<R>
+where
+    R: Registry,
+{
+    pub(crate) fn verif_dump(&self) -> (Vec<ArchetypeDump>, Vec<usize>, Vec<(usize, usize, usize)>) {
+        let archetypes = self.iter().map(|archetype| archetype.verif_dump()).collect();
+        let type_id_lookup = self
+            .type_id_lookup
+            .values()
+            .map(|identifier| identifier.verif_addr())
+            .collect();
+        let foreign_identifier_lookup = self
+            .foreign_identifier_lookup
+            .iter()
+            .map(|(key, identifier)| (key.as_ptr() as usize, key.len(), identifier.verif_addr()))
+            .collect();
+        (archetypes, type_id_lookup, foreign_identifier_lookup)
+    }
+}
